@@ -235,6 +235,7 @@ func check(kind int, ops []int, orders [][]int) {
 		}
 		sym.Assert(false, "C06|"+label+"|not-linearizable|got="+got+"|entries="+counts)
 	}
+	sym.Assert(ok, "C06|"+label+"|not-linearizable")
 	// temporary names handed to two callers are different
 	for i := range res {
 		for j := i + 1; j < len(res); j++ {
